@@ -509,13 +509,16 @@ def pbes2_roundtrip_rows(check, repo, thorough=False):
     for k, kdf in enumerate(HASHES + ["scrypt"]):
         for c, cipher in enumerate(CIPHERS):
             jobs.append((kdf, cipher, (0, 1, 7, 8, 15, 16, 17, 40)[(k + c) % 8]))
+    # the empty plaintext under every cipher (for the GCM variants the container then holds the tag only)
+    for c, cipher in enumerate(CIPHERS):
+        jobs.append(((HASHES + ["scrypt"])[(3 * c + 1) % 12], cipher, 0))
     errs = pmap(one, jobs)
     wrong = [e for e in errs if e]
     und = [e for e in wrong if "not decided" in e]
     if und and len(und) == len(jobs):
         raise AnalysisError("PBES2 round trips could not be interpreted: %s" % und[0])
     check.ob("K-pw", "K-pw|pbes2.roundtrip", not wrong, mod.path, f_enc.lineno,
-             extracted=("%d of %d protections differ: " % (len(wrong), len(jobs)) + "; ".join(wrong[:3])) if wrong else "%d protections (12 KDF choices x 7 ciphers): decrypt(encrypt(x)) == x, the reader derives the writer's key (KDF, hash, salt, cost, key length), another passphrase never returns x" % len(jobs),
+             extracted=("%d of %d protections differ: " % (len(wrong), len(jobs)) + "; ".join(wrong[:3])) if wrong else "%d rows (12 KDF choices x 7 ciphers, and the empty plaintext under each cipher): decrypt(encrypt(x)) == x, the reader derives the writer's key (KDF, hash, salt, cost, key length), another passphrase never returns x" % len(jobs),
              expected="PKCS#5 v2.1 PBES2: every protection the writer offers is read back by the reader with the same passphrase, and refused with another")
     # PKCS#8 on top: wrap / unwrap with and without a passphrase
     P8 = "Crypto.IO.PKCS8"
